@@ -187,14 +187,33 @@ def r2(ctx, R):
         if not rm:
             R.bad(fi, fi.node, "reference stays in the value registry", stmt="refs.remove")
         # the id is taken before the operation (the reference object is replaced by it)
-        ids = [v for nm in ("valid", "prev_valid") for v in assigned_value(fi, nm)]
         deleg = q.calls(fi, name=op)
         R.inst("ReferenceManager.%s: id of the old value is captured before delegating" % op)
-        ok = bool(ids)
-        for st in [n_ for n_ in walk_local(fi.node) if isinstance(n_, ast.Assign) and isinstance(n_.targets[0], ast.Name)
-                   and n_.targets[0].id in ("valid", "prev_valid")]:
+        keys = [c.args[0] for c in q.calls(fi, name=("get", "pop"), recv_endswith="_valid_to_refs") if c.args]
+        ok = bool(keys) and bool(deleg)
+        sd = q.single_defs(fi)
+        for k in keys:
+            full = q.rnorm(fi, k, depth=6)
+            if not (full.startswith("id(") and full.endswith(".interface)")):
+                ok = False
+            # every statement that contributes to the key (through locals) runs before the delegate
+            todo, seen_n, stmts = [k], set(), []
+            while todo:
+                e = todo.pop()
+                for x in ast.walk(e):
+                    if isinstance(x, ast.Name) and x.id in sd and x.id not in seen_n:
+                        seen_n.add(x.id)
+                        todo.append(sd[x.id])
+                        stmts.extend(n_ for n_ in walk_local(fi.node) if isinstance(n_, ast.Assign) and any(
+                            isinstance(t, ast.Name) and t.id == x.id or isinstance(t, ast.Tuple) and any(
+                                isinstance(y, ast.Name) and y.id == x.id for y in t.elts) for t in n_.targets))
+            reads_interface_inline = any(isinstance(x, ast.Attribute) and x.attr == "interface" for x in ast.walk(k))
             for d in deleg:
-                if q.path_between(fi, d, st):
+                if any(q.path_between(fi, d, st) for st in stmts):
+                    ok = False
+                if reads_interface_inline and q.path_between(fi, d, k):
+                    ok = False
+                if not stmts and not reads_interface_inline:
                     ok = False
         if not ok:
             R.bad(fi, fi.node, "old value's id is read after the reference was replaced", stmt="prev id")
